@@ -168,6 +168,13 @@ M("name_setter_keeps_reserved_bit", ["C15"], "D29 reverted: the value setter sto
   ("j1939/name.py", "        self.reserved_bit = 0   # reads as 0, like after construction\n", "        self.reserved_bit = (value >> 48) & 1\n"))
 M("request_dispatch_over_live_list", ["C14"], "D30 reverted: request callbacks dispatched over the live list",
   ("j1939/controller_application.py", "            for subscriber in list(self._subscribers_request):", "            for subscriber in self._subscribers_request:"))
+M("tp21_data_kept_by_reference", ["C01"], "D31 reverted: the send session stores the caller's list object",
+  ("j1939/j1939_21.py", '"data": list(data),   # a copy: the caller may reuse its list', '"data": data,'))
+M("tp21_bam_released_before_last_packet", ["C01"], "D32 reverted: the broadcast session is deleted before the last packet is written",
+  ("j1939/j1939_21.py", "                        self.__send_tp_dt(buf['src_address'], buf['dest_address'], data)\n\n                        buf['next_packet_to_send'] += 1\n",
+   "                        buf['next_packet_to_send'] += 1\n"),
+  ("j1939/j1939_21.py", "                            # done\n                            del self._snd_buffer[bufid]\n                    elif buf['state'] == self.SendBufferState.TRANSMISSION_FINISHED:",
+   "                            # done\n                            del self._snd_buffer[bufid]\n                        self.__send_tp_dt(buf['src_address'], buf['dest_address'], data)\n                    elif buf['state'] == self.SendBufferState.TRANSMISSION_FINISHED:"))
 M("tp21_grant_ignores_rts_limit", ["C09", "C03"], "responder grant ignores the RTS limit",
   ("j1939/j1939_21.py", "            max_num_packages = min(max_num_packages, num_packages)\n", "            max_num_packages = num_packages\n"))
 M("tp21_hold_ignored", ["C09"], "zero-packet CTS treated as 'continue'",
